@@ -336,6 +336,7 @@ def cli_replay_translate(tool, pattern, path, in_impl):
 
 def main(sess):
     sess.engines = ['mirsym + z3 (precedence, fold)', 'relang + z3 (translate)']
+    sess.level = 'translation_validation'
     sess.assumptions += [
         'gitignore: the verdict is one call into libgit2 (FFI) — not covered; only its option precedence is',
         'translate: the structural envelope root/(dir/)* <pattern> <anything> used by fselect (a pattern applies at any depth and to everything below a match) is taken '
